@@ -1854,11 +1854,44 @@ func ConcPaths(fn *ssa.Function, cfg ConcCfg) (seqs []string, truncated bool) {
 				out[strings.Join(append(append([]string{}, ev...), "panic"), " ; ")] = true
 				return
 			case *ssa.If:
+				if ph, isPhi := x.Cond.(*ssa.Phi); isPhi {
+					// a condition computed into a variable first (`ok := a && b; if ok`): on this path the variable stands
+					// for the operand evaluated last - that is what is tested, refined and reported
+					var cv ssa.Value = ph
+					for k := 0; k < 8; k++ {
+						p2, again := cv.(*ssa.Phi)
+						if !again || st.alias[p2] == nil {
+							break
+						}
+						cv = st.alias[p2]
+					}
+					if cv != ssa.Value(ph) {
+						if _, known := st.ints[ph]; !known {
+							cp := *x
+							cp.Cond = cv
+							x = &cp
+						}
+					}
+				}
+				// a negation that survived to the test (`nok := !a; if nok`): the operand is tested, the successors swapped
+				sT, sF := blk.Succs[0], blk.Succs[1]
+				if _, known := st.ints[x.Cond]; !known {
+					for {
+						u, isNot := x.Cond.(*ssa.UnOp)
+						if !isNot || u.Op != token.NOT {
+							break
+						}
+						cp := *x
+						cp.Cond = u.X
+						x = &cp
+						sT, sF = sF, sT
+					}
+				}
 				if kv, ok := st.eval(x.Cond, 0); ok {
 					if kv != 0 {
-						enter(blk, blk.Succs[0], ev, stack, st)
+						enter(blk, sT, ev, stack, st)
 					} else {
-						enter(blk, blk.Succs[1], ev, stack, st)
+						enter(blk, sF, ev, stack, st)
 					}
 					return
 				}
@@ -1871,8 +1904,8 @@ func ConcPaths(fn *ssa.Function, cfg ConcCfg) (seqs []string, truncated bool) {
 						evF = append(append([]string{}, ev...), e)
 					}
 				}
-				enter(blk, blk.Succs[0], evT, stack, refine(st, x.Cond, true))
-				enter(blk, blk.Succs[1], evF, stack, refine(st, x.Cond, false))
+				enter(blk, sT, evT, stack, refine(st, x.Cond, true))
+				enter(blk, sF, evF, stack, refine(st, x.Cond, false))
 				return
 			case *ssa.Jump:
 				enter(blk, blk.Succs[0], ev, stack, st)
